@@ -180,7 +180,7 @@ def check_desc(res, model, desc, rng, tag, channel_b=False, after=None):
         corr_rhs(res, a, stmts, "channel A (ode.fex)", case)
         if a.m_neq != max(a.nspec + (1 if (a.info.heating or a.info.cooling) else 0), 1):
             res.violation("correspondence", "n_eqns differs", case)
-    if channel_b:
+    if channel_b and not desc.get("heating"):          # user-registered heating processes exist in channel A only
         for solver, method, device, f, kernel in BACKENDS:
             tmpl = [f.replace("src/", "src/").replace(".cu", ".cpp") + ".j2", "include/naunet_macros.h.j2"]
             net = ol.build_network(desc)
@@ -214,6 +214,9 @@ FIXED = [
     {"reactions": [(["H+", "e-"], ["H"]), (["H", "E"], ["H+", "E", "E"])], "required": []},
     {"reactions": [(["H", "e-"], ["H+", "e-", "e-"]), (["H+", "e-"], ["H", "PHOTON"])], "required": [], "cooling": ["CIC_HI", "RC_HII"]},
     {"reactions": [(["H", "#CO"], ["#H", "CO"]), (["CO"], ["#CO"]), (["CO"], ["#CO"])], "required": ["GRAIN0"]},
+    # heating AND cooling, processes that list a species twice, a modifier on a species the processes depend on
+    {"reactions": [(["H", "e-"], ["H+", "e-", "e-"]), (["H+", "e-"], ["H", "PHOTON"]), (["He+", "e-"], ["He"])], "required": [], "cooling": ["CIC_HI", "RC_HII"],
+     "heating": [["H", "H"], ["He+", "e-", "e-"], ["H", "e-"]], "ode_modifier": {"e-": {"factors": ["-1.0e-3"], "reactants": [["e-", "H"]]}}},
     {"reactions": [(["H", "O"], ["OH"])], "required": [],
      "ode_modifier": {"H": {"factors": ["-2.0 * k[0]"], "reactants": [["H", "O"]]}, "OH": {"factors": ["1.5", "zeta"], "reactants": [["OH"], ["H", "H", "O"]]}}},
     # terms longer than the statement-wrapping width (three long names: a blank-free term of 77 and more characters)
@@ -223,7 +226,7 @@ FIXED = [
 ]
 
 
-def gen_desc(rng, size="small"):
+def gen_desc(rng, size="small", allow_heating=False):
     desc = ol.gen_network(rng, size)
     if rng.random() < 0.2:
         names = COOLING_SETS[rng.randrange(len(COOLING_SETS))]
@@ -232,6 +235,17 @@ def gen_desc(rng, size="small"):
         desc["required"] = [s for s in desc["required"] if s not in ("E",)] + req
         desc["reactions"] = [([("e-" if x == "E" else x) for x in r], [("e-" if x == "E" else x) for x in p]) for r, p in desc["reactions"]]
         desc["cooling"] = names
+    if allow_heating and rng.random() < 0.2:
+        # heating processes over the network's species: one to three reactants, the same species twice now and then
+        sp = sorted({s for r, p in desc["reactions"] for s in r + p if s not in ("CR", "PHOTON", "CRPHOT", "CRP")} | set(desc["required"]))
+        if sp:
+            hs = []
+            for _ in range(rng.randint(1, 3)):
+                names = [rng.choice(sp) for _ in range(rng.randint(1, 3))]
+                if len(names) > 1 and rng.random() < 0.4:
+                    names[1] = names[0]
+                hs.append(names)
+            desc["heating"] = hs
     if rng.random() < 0.25:
         sp = sorted({s for r, p in desc["reactions"] for s in r + p if s not in ("CR", "PHOTON", "CRPHOT", "CRP")} | set(desc["required"]))
         if sp:
@@ -257,7 +271,7 @@ def run(res, info):
     for i, d in enumerate(FIXED):
         check_desc(res, model, d, rng, ("fixed", i), channel_b=True)
     for i in range(n_a):
-        desc = gen_desc(rng, "small" if i % 5 else "large")
+        desc = gen_desc(rng, "small" if i % 5 else "large", allow_heating=True)
         check_desc(res, model, desc, rng, i, channel_b=(i < n_b))
         if i % 3 == 0:
             # ... and, in the same process, the same species set in (usually) another order
